@@ -532,3 +532,15 @@ def _run(case, ctx, given_track):
         w["failing_queries"] = len(failures)
         return violated(w, sig, nontrivial, cls)
     return held(sig, nontrivial, cls)
+
+
+# floors for the call-history workloads added in session 3 (a run in which they were silently skipped is inconclusive)
+_floors_base = floors
+_FLOORS_EXTRA = {'classes': {'history_reference_edited_in_place': 1000}}
+
+
+def floors(tier):
+    f = _floors_base(tier)
+    for kind, d in _FLOORS_EXTRA.items():
+        f.setdefault(kind, {}).update(d)
+    return f
